@@ -47,6 +47,16 @@ class C09(Prop):
                 self.must_accept.add(out[-1])
         for _ in range(n // 10):
             out.append('parse rb %s' % hx(g.rawbytes(g.pick([24, 24, 24, 23, 25, 0]))))
+        # packets of 64 KiB and more (length field 0x3fff and above)
+        for total in ([65536, 65540] if tier == 'quick' else [65532, 65536, 65540, 131072, 262144]):
+            b = bytes([0x80 | g.r.randrange(32), 204]) + (total // 4 - 1).to_bytes(2, 'big') + g.rawbytes(8) + bytes(total - 12)
+            line = 'parse app %s' % hx(b)
+            self.must_accept.add(line)
+            out.append(line)
+            b2 = bytes([0x80, 201]) + (total // 4 - 1).to_bytes(2, 'big') + g.rawbytes(4) + bytes(total - 8)
+            line = 'parse rr %s' % hx(b2)
+            self.must_accept.add(line)
+            out.append(line)
         return out
     def relevant(self, line, impl, model):
         return kind_of(line) == 'parse' and entry_of(line) in self.FIXED
@@ -300,9 +310,15 @@ class C12(Prop):
     def cases(self, g, tier, h):
         n = 250 if tier == 'quick' else 8000
         out = []
-        for e, b in gen_parse_inputs(g, h, n, malformed_ratio=0.4):
+        pairs = gen_parse_inputs(g, h, n, malformed_ratio=0.4)
+        for _ in range(n // 5):
+            # short framed packets of an unknown type: shorter than some typed parser's minimum
+            words = g.pick([1, 2, 3, 4, 6, 7, 8])
+            b = bytes([0x80 | g.r.randrange(32), g.pick([199, 207, 0, 242, 255, 72, 77]), 0, words - 1]) + g.rawbytes(4 * words - 4)
+            pairs.append(('unknown', b))
+        for e, b in pairs:
             if g.chance(0.2) and len(b) >= 2:
-                b = b[:1] + bytes([g.pick([199, 207, 0, 255, 200, 201, 202, 203, 204, 205, 206])]) + b[2:]
+                b = b[:1] + bytes([g.pick([199, 207, 0, 255, 72, 73, 74, 75, 76, 77, 78, 200, 201, 202, 203, 204, 205, 206])]) + b[2:]
             out.append('parse packet %s' % hx(b))
             for t in self.ALL:
                 out.append('parse %s %s' % (t, hx(b)))
